@@ -811,6 +811,9 @@ class ExprMixin:
                 self.may_raise(True, "IndexError", node)
                 raise Unsupported("index into empty literal list")
             i = self.norm_index(idx, base.length, node)
+            if self.prune and not self.spec and not is_conc(idx) and is_int(idx) and z3.is_app(i) and i.decl().kind() == z3.Z3_OP_ITE \
+                    and self.decided(st, to_z3(idx) >= 0) is True:
+                i = to_z3(idx)  # opt-in (PRUNE_BRANCHES): the path condition decides that no negative-index wrap-around happens
             if isinstance(base.length, int) and 0 < base.length <= 64 and base.eshape in (("str",), ("int",)) and not is_conc(i):
                 # a list of known length whose elements all fold to constants (a literal table), symbolic position:
                 # the same value written as a case split over the position
@@ -939,19 +942,29 @@ class ExprMixin:
             return z3.SubString(zb, a, z3.If(b - a > 0, b - a, 0))
         if isinstance(base, VList):
             ln = to_z3(base.length)
-            a = self.clamp(lo, ln, 0)
-            b = self.clamp(hi, ln, ln)
+            a = self.clamp(lo, ln, 0, st)
+            b = self.clamp(hi, ln, ln, st)
             q = z3.Int(uid("q"))
             el = tmap(lambda x: z3.Lambda([q], z3.Select(x, q + a)), base.elems)
+            if self.prune and self.decided(st, b - a > 0) is True:
+                return VList(z3.simplify(b - a), el, base.eshape)  # the same length, the case split decided by the path condition
             return VList(z3.If(b - a > 0, b - a, z3.IntVal(0)), el, base.eshape)
         if isinstance(base, VTuple):
             if (lo is None or isinstance(lo, int)) and (hi is None or isinstance(hi, int)):
                 return VTuple(base.items[lo:hi])
         raise Unsupported(f"slice of {type(base).__name__}")
 
-    def clamp(self, v, ln, dflt):
+    def clamp(self, v, ln, dflt, st=None):
         if v is None:
             return to_z3(dflt)
+        if st is not None and self.prune:
+            # opt-in (sidecar PRUNE_BRANCHES): where the path condition already decides the case split of Python's slice-bound
+            # normalisation, the bound is the plain value (same value as the conditional below, smaller term)
+            z0 = to_z3(v)
+            if (not isinstance(v, int) or v >= 0) and self.decided(st, z3.And(z0 >= 0, z0 <= ln)) is True:
+                return z0
+            if isinstance(v, int) and v < 0 and self.decided(st, ln + v >= 0) is True:
+                return z3.simplify(ln + v)
         if isinstance(v, int):
             if v >= 0:
                 return z3.If(ln < v, ln, z3.IntVal(v))
